@@ -22,6 +22,9 @@ func NewTimer(d time.Duration, callback func()) *Timer {
 	if !vrt.Active() {
 		return &Timer{real: utils.NewTimer(d, callback)}
 	}
+	if os.Getenv("VERIF_DEBUG") != "" {
+		os.Stderr.WriteString("vutils.NewTimer " + d.String() + "\n")
+	}
 	return &Timer{v: vrt.NewTimerFunc(d, "utils.timer", callback)}
 }
 
